@@ -53,7 +53,7 @@ func gen(g *mon.Gen) {
 	for b0 := 0; b0 < 256; b0++ {
 		g.Emit(&Case{Kind: "sweep", B0: b0})
 	}
-	nLong := g.Pick(2000, 200000)
+	nLong := g.Pick(6000, 200000)
 	for i := 0; i < nLong; i++ {
 		var l int
 		switch g.Rng.Intn(6) {
@@ -73,7 +73,7 @@ func gen(g *mon.Gen) {
 		}
 		g.Emit(&Case{Kind: "long", Seed: g.Rng.Int63(), Len: l})
 	}
-	nFr := g.Pick(400, 20000)
+	nFr := g.Pick(1200, 20000)
 	for i := 0; i < nFr; i++ {
 		g.Emit(&Case{Kind: "frames", Seed: g.Rng.Int63(), N: 50})
 	}
